@@ -1,8 +1,293 @@
 (* Lemmas about Model/FrrRender.v and Model/FrrSem.v (C14). *)
-From Coq Require Import String NArith Bool List Permutation Lia.
+From Coq Require Import String NArith Bool List Permutation Sorted Lia.
 From Verif Require Import Model.FrrRender Model.FrrSem Proofs.FrrSortP.
 Import ListNotations.
 Open Scope string_scope.
 
 Lemma render_nil : render [] = Some (mk_frr [] []).
 Proof. reflexivity. Qed.
+
+(* ---- the semantics does not look at sequence numbers ---- *)
+Definition strip (it : item) : item := set_seq it 0.
+
+Lemma number_strip l cnt : map strip (number l cnt) = map (fun x => strip (snd x)) l.
+Proof.
+  revert cnt; induction l as [|[[n|nm] it] l IH]; intros cnt; simpl; [reflexivity| |].
+  - rewrite IH. destruct it; reflexivity.
+  - destruct (bump nm cnt) as [n cnt']. simpl. rewrite IH. destruct it; reflexivity.
+Qed.
+
+Lemma pl_lines_strip its rs a name :
+  pl_lines (mk_frr (map strip its) rs) a name = pl_lines (mk_frr its rs) a name.
+Proof.
+  unfold pl_lines; simpl. induction its as [|it its IH]; simpl; [reflexivity|].
+  rewrite IH. destruct it; reflexivity.
+Qed.
+
+Lemma rm_entries_strip its rs name :
+  rm_entries (mk_frr (map strip its) rs) name = rm_entries (mk_frr its rs) name.
+Proof.
+  unfold rm_entries; simpl. induction its as [|it its IH]; simpl; [reflexivity|].
+  rewrite IH. destruct it; reflexivity.
+Qed.
+
+(* ---- the in route-map ---- *)
+Lemma append_inj_l x a b : x ++ a = x ++ b -> a = b.
+Proof. induction x as [|c x IH]; simpl; intros H; [assumption|]. inversion H. auto. Qed.
+
+Lemma rm_in_neq_out s : rm_in s <> rm_out s.
+Proof. unfold rm_in, rm_out. intros H. apply append_inj_l in H. discriminate. Qed.
+
+(* the IRm items of one neighbor block: names and content *)
+Definition block_rms (n : nconf) : list item :=
+  flat_map (fun x => match snd x with IRm _ _ _ _ _ _ => [snd x] | _ => [] end) (neighbor_filters n).
+
+Lemma in_block_rm_name n it :
+  In it (map snd (neighbor_filters n)) ->
+  match it with
+  | IRm nm _ pm m st nx => (nm = rm_in (nc_s n) /\ pm = false /\ m = [] /\ nx = false) \/ nm = rm_out (nc_s n)
+  | IPl _ _ _ _ _ => True
+  end.
+Proof.
+  unfold neighbor_filters. rewrite !map_app, !in_app_iff, !map_map. simpl.
+  intros H. destruct it as [nm sq pm m st nx|]; [|exact I].
+  repeat (destruct H as [H|H]); try contradiction.
+  all: try (inversion H; subst; auto; fail).
+  all: try (apply in_map_iff in H as (x & E & _); inversion E; subst; right; reflexivity).
+  - exfalso. apply in_map_iff in H as (x & E & Hx). apply in_flat_map in Hx as (a & _ & Ha).
+    unfold adv_lines in Ha. rewrite !in_app_iff in Ha.
+    destruct Ha as [Ha|[Ha|[Ha|Ha]]].
+    + destruct (N.eqb (ac_lp a) 0); [contradiction|]. destruct Ha as [<-|[]]. discriminate.
+    + apply in_map_iff in Ha as (c & <- & _). discriminate.
+    + apply in_map_iff in Ha as (c & <- & _). discriminate.
+    + destruct Ha as [<-|[]]. discriminate.
+  - exfalso. destruct (nc_has4 n); simpl in H; [contradiction|]. destruct H as [H|[]]; discriminate.
+  - exfalso. destruct (nc_has6 n); simpl in H; [contradiction|]. destruct H as [H|[]]; discriminate.
+Qed.
+
+(* a route-map all of whose entries are deny entries without match rejects everything *)
+Lemma eval_all_deny ft um c es route acc fell :
+  (forall e, In e es -> rm_permit e = false /\ rm_match e = []) -> es <> [] ->
+  eval_rm ft um c es route acc fell = None.
+Proof.
+  destruct es as [|e es]; [congruence|]. intros H _. simpl.
+  destruct (H e (or_introl eq_refl)) as [P M]. rewrite M, P. reflexivity.
+Qed.
+
+(* ---- session parameters on the rendered neighbor ---- *)
+Lemma render_nbr_params asn n :
+  let s := nc_s n in let r := render_nbr asn n in
+  n_peer r = peer_tok s /\ n_iface r = nonempty (s_iface s) /\ n_asn r = asn_for s /\
+  n_multihop r = s_multihop s /\ n_port r = (if N.eqb (s_port s) 0 then None else Some (s_port s)) /\
+  n_timers r = (match s_keep s, s_hold s with Some k, Some h => Some ((k / second)%N, (h / second)%N) | _, _ => None end) /\
+  n_connect r = (match s_connect s with Some c => if N.eqb (c / second) 0 then None else Some (c / second)%N | None => None end) /\
+  n_password r = (if nonempty (s_password s) then Some (s_password s) else None) /\
+  n_src r = (match s_src s with Some a => if nonempty a then Some a else None | None => None end) /\
+  n_gr r = s_gr s /\ n_bfd r = (if nonempty (s_bfd s) then Some (s_bfd s) else None) /\
+  (forall x, n_act4 r = Some x -> x = (rm_in s, rm_out s)) /\
+  (forall x, n_act6 r = Some x -> x = (rm_in s, rm_out s)) /\
+  (s_disable_mp s = false -> n_act4 r = Some (rm_in s, rm_out s) /\ n_act6 r = Some (rm_in s, rm_out s)) /\
+  (s_disable_mp s = true -> nfam_of s = NF4 -> n_act4 r = Some (rm_in s, rm_out s) /\ n_act6 r = None) /\
+  (s_disable_mp s = true -> nfam_of s = NF6 -> n_act4 r = None /\ n_act6 r = Some (rm_in s, rm_out s)) /\
+  (s_disable_mp s = true -> nfam_of s = NFDual -> n_act4 r = None /\ n_act6 r = None).
+Proof.
+  simpl. repeat split; unfold activate in *.
+  - intros x. destruct (negb _ || _); intros H; inversion H; reflexivity.
+  - intros x. destruct (negb _ || _); intros H; inversion H; reflexivity.
+  - rewrite H. reflexivity.
+  - rewrite H. reflexivity.
+  - rewrite H, H0. reflexivity.
+  - rewrite H, H0. reflexivity.
+  - rewrite H, H0. reflexivity.
+  - rewrite H, H0. reflexivity.
+  - rewrite H, H0. reflexivity.
+  - rewrite H, H0. reflexivity.
+Qed.
+
+(* ---- routers of the rendered configuration ---- *)
+Lemma mk_router_spec S k r : mk_router S k = Some r ->
+  exists first rest, sessions_with rkey k S = first :: rest /\ rc_first r = first /\
+    exact_pfx_set (rc_p4 r) (map a_pfx (advs_afi A4 (flat_map s_advs (first :: rest)))) /\
+    exact_pfx_set (rc_p6 r) (map a_pfx (advs_afi A6 (flat_map s_advs (first :: rest)))) /\
+    forall n, In n (rc_nbrs r) ->
+      exists f more, sessions_with nname (nname f) (first :: rest) = f :: more /\
+                     mk_neighbor f (flat_map s_advs (f :: more)) = Some n.
+Proof.
+  unfold mk_router. destruct (sessions_with rkey k S) as [|f rest] eqn:E; [discriminate|].
+  destruct (all_some _) as [ns|] eqn:E2; [|discriminate]. intros H; inversion H; subst; simpl.
+  exists f, rest. split; [reflexivity|]. split; [reflexivity|]. split; [apply sort_k_exact|]. split; [apply sort_k_exact|].
+  intros n Hn. pose proof (all_some_in _ _ _ E2 Hn) as Hin. apply in_map_iff in Hin as (nn & Hnn & _).
+  destruct (sessions_with nname nn (f :: rest)) as [|g more] eqn:E3; [discriminate|].
+  assert (nname g = nn).
+  { assert (In g (sessions_with nname nn (f :: rest))) by (rewrite E3; left; reflexivity).
+    apply sessions_with_in in H0. tauto. }
+  subst nn. exists g, more. split; assumption.
+Qed.
+
+Lemma render_routers S c : render S = Some c ->
+  exists rs, create_config S = Some rs /\ routers c = map render_router rs /\
+             items c = number (filters_of rs) [].
+Proof.
+  unfold render. destruct (create_config S) as [rs|]; [|discriminate]. intros H; inversion H; subst.
+  exists rs; auto.
+Qed.
+
+Lemma create_config_router S rs r : create_config S = Some rs -> In r rs ->
+  exists k, In k (map rkey S) /\ mk_router S k = Some r.
+Proof.
+  unfold create_config. intros H Hr. pose proof (all_some_in _ _ _ H Hr) as Hin.
+  apply in_map_iff in Hin as (k & Hk & Hks). apply (proj1 (sort_s_in _ _)) in Hks. exists k; split; assumption.
+Qed.
+
+(* ---- F15 ---- *)
+Definition f15_witness : session :=
+  mk_session 100 (Some "10.1.1.254") "" "" false "net0" 0 "external" None 179 None None None "" "" false false true
+    [mk_adv (mk_pfx "2001:db8::1/128" {| pfam := F6; pbase := 42540766411282592856903984951653826561; plen := 128 |}) 0 []] ("", "").
+
+(* ---- every inbound route is rejected ---- *)
+Definition all_nbrs (rs : list rconf) : list nconf := flat_map rc_nbrs rs.
+(* no neighbor's in-map name is another neighbor's out-map name (computable; it
+   holds when neighbor ids are distinct, which wf_sessions gives) *)
+Definition in_out_distinct (rs : list rconf) : Prop :=
+  forall n n', In n (all_nbrs rs) -> In n' (all_nbrs rs) -> rm_in (nc_s n) <> rm_out (nc_s n').
+
+Lemma rm_entries_in its rs name e :
+  In e (rm_entries (mk_frr its rs) name) <->
+  exists sq pm m st nx, In (IRm name sq pm m st nx) its /\ e = mk_rme pm m st nx.
+Proof.
+  unfold rm_entries; simpl. rewrite in_flat_map. split.
+  - intros (it & Hit & He). destruct it as [nm sq pm m st nx|]; [|contradiction].
+    destruct (String.eqb nm name) eqn:E; [|contradiction]. apply String.eqb_eq in E. subst.
+    destruct He as [<-|[]]. exists sq, pm, m, st, nx. auto.
+  - intros (sq & pm & m & st & nx & Hin & ->). eexists; split; [exact Hin|]. simpl. rewrite String.eqb_refl. left; reflexivity.
+Qed.
+
+Lemma filters_of_in rs x : In x (map snd (filters_of rs)) <-> exists n, In n (all_nbrs rs) /\ In x (map snd (neighbor_filters n)).
+Proof.
+  unfold filters_of, all_nbrs. rewrite in_map_iff. split.
+  - intros (y & <- & Hy). apply in_flat_map in Hy as (r & Hr & Hy). apply in_flat_map in Hy as (n & Hn & Hy).
+    exists n. split; [apply in_flat_map; exists r; auto|apply in_map; assumption].
+  - intros (n & Hn & Hx). apply in_map_iff in Hx as (y & <- & Hy). exists y; split; [reflexivity|].
+    apply in_flat_map in Hn as (r & Hr & Hn). apply in_flat_map. exists r; split; [assumption|].
+    apply in_flat_map. exists n; auto.
+Qed.
+
+Lemma strip_in its x : In x its -> In (strip x) (map strip its).
+Proof. apply in_map. Qed.
+
+Lemma in_denied_rendered ft um S c rs n route acc fell :
+  render S = Some c -> create_config S = Some rs -> in_out_distinct rs -> In n (all_nbrs rs) ->
+  eval_rm ft um c (rm_entries c (rm_in (nc_s n))) route acc fell = None.
+Proof.
+  intros Hr Hc Hd Hn. unfold render in Hr. rewrite Hc in Hr. inversion Hr; subst c; clear Hr.
+  apply eval_all_deny.
+  - intros e He. rewrite <- rm_entries_strip in He. rewrite number_strip in He.
+    apply rm_entries_in in He as (sq & pm & m & st & nx & Hin & ->). simpl.
+    apply in_map_iff in Hin as ([sp it] & E & Hin). simpl in E.
+    assert (Hit: In it (map snd (filters_of rs))) by (apply in_map_iff; exists (sp, it); auto).
+    apply filters_of_in in Hit as (n' & Hn' & Hit). apply in_block_rm_name in Hit.
+    destruct it as [nm sq' pm' m' st' nx'|]; simpl in E; [|discriminate]. inversion E; subst.
+    destruct Hit as [(_ & -> & -> & _)|Hout]; [split; reflexivity|].
+    exfalso. exact (Hd n n' Hn Hn' Hout).
+  - intros Hnil.
+    assert (In (mk_rme false [] [] false) (rm_entries (mk_frr (number (filters_of rs) []) (map render_router rs)) (rm_in (nc_s n)))).
+    { rewrite <- rm_entries_strip, number_strip. apply rm_entries_in. exists 0%N, false, [], [], false. split; [|reflexivity].
+      apply in_map_iff. exists (Fixed 20, IRm (rm_in (nc_s n)) 0 false [] [] false). split; [reflexivity|].
+      unfold filters_of. apply in_flat_map in Hn as (r & Hr & Hn). apply in_flat_map. exists r; split; [assumption|].
+      apply in_flat_map. exists n; split; [assumption|]. unfold neighbor_filters. simpl. left; reflexivity. }
+    rewrite Hnil in H. contradiction.
+Qed.
+
+(* ---- independence of the creation order ---- *)
+Definition wf_perm (S : list session) : Prop :=
+  (forall s t, In s S -> In t S -> rkey s = rkey t -> nname s = nname t -> s = t) /\
+  (forall s t, In s S -> In t S -> rkey s = rkey t ->
+     s_myasn s = s_myasn t /\ s_rid s = s_rid t /\ s_vrf s = s_vrf t) /\
+  key_inj p_text (map a_pfx (flat_map s_advs S)).
+
+Lemma perm_all_eq {A} (l l' : list A) :
+  (forall x y, In x l -> In y l -> x = y) -> Permutation l l' -> l = l'.
+Proof.
+  intros H P. induction P.
+  - reflexivity.
+  - f_equal. apply IHP. intros a b Ha Hb. apply H; right; assumption.
+  - assert (x = y) by (apply H; simpl; auto). subst. reflexivity.
+  - assert (l = l') by (apply IHP1; assumption). subst. apply IHP2. assumption.
+Qed.
+
+Definition req (r r' : rconf) : Prop :=
+  s_myasn (rc_first r) = s_myasn (rc_first r') /\ s_rid (rc_first r) = s_rid (rc_first r') /\
+  s_vrf (rc_first r) = s_vrf (rc_first r') /\ rc_nbrs r = rc_nbrs r' /\ rc_p4 r = rc_p4 r' /\ rc_p6 r = rc_p6 r'.
+
+Definition opt_rel {A} (R : A -> A -> Prop) (x y : option A) : Prop :=
+  match x, y with None, None => True | Some a, Some b => R a b | _, _ => False end.
+
+Lemma mk_router_perm S S' k : wf_perm S -> Permutation S S' -> opt_rel req (mk_router S k) (mk_router S' k).
+Proof.
+  intros (W1 & W2 & W3) Hperm. unfold mk_router.
+  pose proof (filter_perm (fun s => String.eqb (rkey s) k) _ _ Hperm) as Pf.
+  fold (sessions_with rkey k S) (sessions_with rkey k S') in Pf.
+  destruct (sessions_with rkey k S) as [|f rest] eqn:E; destruct (sessions_with rkey k S') as [|f' rest'] eqn:E'.
+  - exact I.
+  - apply Permutation_nil in Pf. discriminate.
+  - apply Permutation_sym, Permutation_nil in Pf. discriminate.
+  - assert (Hsub: forall x, In x (f :: rest) -> In x S /\ rkey x = k)
+      by (intros x Hx; rewrite <- E in Hx; apply sessions_with_in in Hx; assumption).
+    assert (Hff': In f' (f :: rest)) by (eapply Permutation_in; [apply Permutation_sym; exact Pf|left; reflexivity]).
+    destruct (Hsub f (or_introl eq_refl)) as [HfS Kf]. destruct (Hsub f' Hff') as [Hf'S Kf'].
+    destruct (W2 f f' HfS Hf'S (eq_trans Kf (eq_sym Kf'))) as (A1 & A2 & A3).
+    rewrite (sort_s_perm (map nname (f :: rest)) (map nname (f' :: rest'))) by (apply Permutation_map; assumption).
+    set (g := fun Sr nn => match sessions_with nname nn Sr with [] => None | f0 :: _ => mk_neighbor f0 (flat_map s_advs (sessions_with nname nn Sr)) end).
+    assert (Eg: forall nn, g (f :: rest) nn = g (f' :: rest') nn).
+    { intros nn. unfold g.
+      assert (sessions_with nname nn (f :: rest) = sessions_with nname nn (f' :: rest')) as ->; [|reflexivity].
+      apply perm_all_eq; [|apply filter_perm; assumption].
+      intros x y Hx Hy. apply sessions_with_in in Hx as [Hx Nx]. apply sessions_with_in in Hy as [Hy Ny].
+      destruct (Hsub x Hx), (Hsub y Hy). apply W1; congruence. }
+    change (fun nn => match sessions_with nname nn (f :: rest) with [] => None | f0 :: _ => mk_neighbor f0 (flat_map s_advs (sessions_with nname nn (f :: rest))) end)
+      with (g (f :: rest)).
+    change (fun nn => match sessions_with nname nn (f' :: rest') with [] => None | f0 :: _ => mk_neighbor f0 (flat_map s_advs (sessions_with nname nn (f' :: rest'))) end)
+      with (g (f' :: rest')).
+    rewrite (all_some_ext (g (f :: rest)) (g (f' :: rest'))) by (intros; apply Eg).
+    destruct (all_some _) as [ns|]; [|exact I]. simpl.
+    assert (Hkey: forall a, key_inj p_text (map a_pfx (advs_afi a (flat_map s_advs (f :: rest))))).
+    { intros a x y Hx Hy. apply W3.
+      - apply in_map_iff in Hx as (u & <- & Hu). apply in_map. apply filter_In in Hu as [Hu _].
+        apply in_flat_map in Hu as (v & Hv & Hu). apply in_flat_map. exists v; split; [apply Hsub; assumption|assumption].
+      - apply in_map_iff in Hy as (u & <- & Hu). apply in_map. apply filter_In in Hu as [Hu _].
+        apply in_flat_map in Hu as (v & Hv & Hu). apply in_flat_map. exists v; split; [apply Hsub; assumption|assumption]. }
+    assert (Hp: forall a, Permutation (map a_pfx (advs_afi a (flat_map s_advs (f :: rest)))) (map a_pfx (advs_afi a (flat_map s_advs (f' :: rest'))))).
+    { intros a. apply Permutation_map. apply filter_perm. apply Permutation_flat_map. assumption. }
+    unfold req; simpl. repeat split; try assumption.
+    + apply sort_k_perm; [apply Hkey|apply Hp].
+    + apply sort_k_perm; [apply Hkey|apply Hp].
+Qed.
+
+Lemma all_some_rel {A B} (R : B -> B -> Prop) (f g : A -> option B) l :
+  (forall x, In x l -> opt_rel R (f x) (g x)) -> opt_rel (Forall2 R) (all_some (map f l)) (all_some (map g l)).
+Proof.
+  induction l as [|x l IH]; simpl; intros H; [constructor|].
+  pose proof (H x (or_introl eq_refl)) as Hx. specialize (IH (fun y Hy => H y (or_intror Hy))).
+  destruct (f x), (g x); simpl in Hx; try contradiction; [|exact I].
+  destruct (all_some (map f l)), (all_some (map g l)); simpl in IH; try contradiction; [|exact I].
+  simpl. constructor; assumption.
+Qed.
+
+Lemma req_render rs rs' : Forall2 req rs rs' ->
+  map render_router rs = map render_router rs' /\ filters_of rs = filters_of rs'.
+Proof.
+  induction 1 as [|r r' rs rs' (A1 & A2 & A3 & A4 & A5 & A6) _ [IH1 IH2]]; [split; reflexivity|].
+  split.
+  - simpl. rewrite IH1. f_equal. unfold render_router. rewrite A1, A2, A3, A4, A5, A6. reflexivity.
+  - unfold filters_of in *. simpl. rewrite IH2, A4. reflexivity.
+Qed.
+
+Lemma render_perm S S' : wf_perm S -> Permutation S S' -> render S = render S'.
+Proof.
+  intros W P. unfold render, create_config.
+  rewrite (sort_s_perm (map rkey S) (map rkey S')) by (apply Permutation_map; assumption).
+  pose proof (all_some_rel req (mk_router S) (mk_router S') (sort_s (map rkey S'))
+                (fun k _ => mk_router_perm S S' k W P)) as H.
+  destruct (all_some (map (mk_router S) _)) as [rs|], (all_some (map (mk_router S') _)) as [rs'|]; simpl in H; try contradiction; [|reflexivity].
+  destruct (req_render _ _ H) as [E1 E2]. rewrite E1, E2. reflexivity.
+Qed.
